@@ -17,7 +17,7 @@ import itertools
 import z3
 
 from . import loader
-from .sym import Assumed, Atom, EngineLimit, Sym, V, _lift, atom, engine, fresh
+from .sym import documented, Assumed, Atom, EngineLimit, Sym, V, _lift, atom, engine, fresh
 from .tensor import Tensor, mk_sum
 
 core = loader.load("core")
@@ -82,6 +82,8 @@ def enc(obj):
 
 
 def _dt(d):
+    if isinstance(d, Sym):
+        return d.e
     return z3.IntVal(d) if isinstance(d, int) else d
 
 
@@ -245,7 +247,7 @@ class AbsGF:
         Assumed.note("GFI contract G6 assumed of callees (merge)")
         self.calls.append(("merge", (x, x_, check), {}))
         if x is None or x_ is None:
-            raise TypeError("merge of None (callee merges are total only on choice maps)")
+            raise documented(TypeError("merge of None (callee merges are total only on choice maps)"))
         if check is not None:
             # G6 with check: leaf-wise `check ? x : x_` (scalar abstract values: the whole value)
             from .stubs.jnp import where
